@@ -40,4 +40,34 @@ META = {
         "note": "Trusted: as C01, plus go2v's reading of the constant and of Read's ticker/cut-off expressions. Real-time behaviour of time.Ticker is not modelled.",
         "technique": "Coq proof (arithmetic over Z + specification machine) on generated constants + per-step simulation",
     },
+    "C17": {
+        "text": "Coq theorems C17_failed_password, C17_max_attempts, C17_invalid_user: for every user name without newline (spaces, ' from ', ' port ', forged fragments included), every space-free peer address and decimal port, processing the message yields exactly one failed event whose source/port are the appended ones. The regexes and dispatch table in the statements are regenerated from the source by go2v on every run (Go's own regexp/syntax parses them), so a regex edit re-opens the proof obligation. Handlers are tied by differential execution on hostile names.",
+        "design_ref": "DESIGN.md 6/C17",
+        "note": "Trusted: Coq kernel; go2v; byte-level = rune-level matching for these classes; backtracking matcher = RE2 leftmost-first for flat patterns (exercised by correspondence).",
+        "technique": "Coq proof over generated regex ASTs (greedy-field lemma + marker counting) + model/implementation correspondence",
+    },
+    "C11": {
+        "text": "Coq theorems C11_total (every line, token, writer and hand-off outcome: no panic, no error with a working writer, at most one event, forward only with the one succeeded event written) and C11_keyword (no keyword prefix => nothing at all happens), proved over the generated dispatch table and regexes by a bound lemma on matches and case analysis over all handlers. Differential execution on arbitrary bytes, mutations of valid messages and hostile pid tokens, with recovered panics.",
+        "design_ref": "DESIGN.md 6/C11",
+        "note": "Trusted: as C17. Termination of Go's regexp is library behaviour. The 'verbatim substring' clause is checked by the oracle on the implementation and holds by construction in the model (captures are prefixes of suffixes of the line).",
+        "technique": "Coq proof (all inputs; case analysis over generated dispatch/handlers) + correspondence on hostile inputs",
+    },
+    "C19": {
+        "text": "Coq theorems C19_counted (an emitted event implies exactly one counter increment with matching outcome and the right method family) and C19_no_keyword, over the generated dispatch table (which carries the switch's metric calls). Counters are read from a private Prometheus registry before/after each line in the correspondence.",
+        "design_ref": "DESIGN.md 6/C19",
+        "note": "Trusted: as C17; metric calls inside three handlers are hand-modelled and tied by correspondence.",
+        "technique": "Coq proof (walk of the generated dispatch table) + correspondence with counter deltas",
+    },
+    "C20": {
+        "text": "Coq theorems C20_sort / C20_sort_shape (for any set of names, unbounded suffixes: result is the log names sorted by descending rotation number, live file last), C20_initial (start-up delivers the initial files' complete lines in that order and establishes the tail invariant), C20_tail / C20_tail_steps / C20_tail_prefix (for every sequence of append / partial append / rotate / recreate / truncate / chmod operations, at every prefix, the delivered lines are exactly the complete lines of each incarnation of the live file, once, in order, delivered by the operation that completes them), C20_lines_meaning (lines are newline-free and the split is unique). Tied to dirreader.go by differential execution of the real LogDirReader over an in-memory file system and fake watcher.",
+        "design_ref": "DESIGN.md 6/C20",
+        "note": "Trusted: Coq kernel; harness + in-package accessor (overlay); bufio/backoff/fsnotify behaviour; one op bit per event.",
+        "technique": "Coq proof (invariant over operation sequences; sorting by permutation + StronglySorted) + model/implementation correspondence",
+    },
+    "C12": {
+        "text": "Coq theorems C12_chunk_independent (any partition of the byte stream into writes gives the same outcome), C12_spec / C12_return / C12_stops_at_error / C12_all_delivered (the callback sees exactly the delimiter-terminated records, once, in order; delivery stops at the first refused record with that call's error; end of stream is returned as an error), C12_tail_never_delivered, C12_delivered_prefix, C12_delivered_shape, C12_stream_shape (unique decomposition). Tied to namedpipeingester.go through a REAL FIFO with generated write partitions, record sizes up to 3x64 KiB and a callback failing at every index.",
+        "design_ref": "DESIGN.md 6/C12",
+        "note": "Trusted: Coq kernel; harness; bufio.Reader.ReadString's contract (stated in the model, exercised, not proved); kernel FIFO semantics.",
+        "technique": "Coq proof (induction over the chunk list with the buffer invariant) + correspondence through a real FIFO",
+    },
 }
